@@ -33,6 +33,10 @@ type Case struct {
 	Kind        string     `json:"kind"` // roundtrip | independent
 	Name        string     `json:"name"`
 	RegionStart int        `json:"region_start"`
+	// RegionEnd (non-zero): the declared region does not end where the embedded sequence does - a sub-region of a
+	// chromosome whose whole sequence is embedded, or a region longer than what is embedded. The bounds are metadata:
+	// they come back as given, and so does the full sequence.
+	RegionEnd int `json:"region_end,omitempty"`
 	Seq         vk.SeqSpec `json:"seq"`
 	Features    []Feat     `json:"features"`
 	// independent writer layout
@@ -42,7 +46,12 @@ type Case struct {
 	FinalNewline bool     `json:"final_newline,omitempty"`
 }
 
-func (c Case) regionEnd() int { return c.RegionStart + len(c.Seq.String()) - 1 }
+func (c Case) regionEnd() int {
+	if c.RegionEnd != 0 {
+		return c.RegionEnd
+	}
+	return c.RegionStart + len(c.Seq.String()) - 1
+}
 
 func build(c Case) poly.Sequence {
 	s := poly.Sequence{Sequence: c.Seq.String()}
@@ -472,6 +481,21 @@ func drawCase(t *rapid.T, kind string) Case {
 	}
 	for i := 0; i < nf; i++ {
 		c.Features = append(c.Features, drawFeature(t, i, n, c.Name))
+	}
+	if rapid.IntRange(0, 5).Draw(t, "region_end_apart") == 0 {
+		switch rapid.IntRange(0, 2).Draw(t, "region_end_kind") {
+		case 0: // a multiple of the FASTA line width inside the sequence
+			if n > 70 {
+				c.RegionStart, c.RegionEnd = 1, 70*rapid.IntRange(1, (n-1)/70).Draw(t, "region_end_lines")
+			}
+		case 1:
+			c.RegionEnd = c.RegionStart + rapid.IntRange(0, n+200).Draw(t, "region_end_any")
+		default:
+			c.RegionEnd = c.RegionStart + n - 1 + rapid.SampledFrom([]int{-2, -1, 1, 2, 70}).Draw(t, "region_end_near")
+			if c.RegionEnd < c.RegionStart {
+				c.RegionEnd = 0
+			}
+		}
 	}
 	if kind == "independent" {
 		c.Wrap = rapid.OneOf(rapid.IntRange(1, 120), rapid.SampledFrom([]int{0, 1, 2, 60, 70, 80})).Draw(t, "wrap")
